@@ -45,11 +45,8 @@ theorem import_and_write_lock_same_key (w : World) (s t : Sid) (l : Nat)
     read answers "not initializing" and the program unlocks and answers the import error -/
 theorem import_requires_initializing (w : World) (s : Sid) (l : Nat) (hst : (w.state l).com = some true)
     (hown : (w.state l).own ≠ some s) :
-    ∃ o, exec w s (.readState l) = .done w o ∧ o.flag = false := by
-  refine ⟨_, ?_, ?_⟩
-  · simp only [exec, hown, if_false]
-    rfl
-  · simp [hst]
+    exec w s (.readState l) = .done w { flag := false } := by
+  simp [exec, hown, hst]
 
 /-- the state update of `handleState` re-evaluates `state = 'initializing'` on the latest version:
     on a committed in-use ledger it updates nothing (so the sequences are not reset) -/
@@ -78,7 +75,7 @@ def exWorld (writer : Prog) : World :=
 /-- Import first: the writer waits at the ledger lock through both of Import's transactions, then sees
     the imported state (ids continue after the imported ones) -/
 example :
-    let w := run ([1, 2, 2] ++ List.replicate 12 1 ++ List.replicate 12 2) (exWorld (sendProg exW false))
+    let w := run ([1, 2, 2] ++ List.replicate 13 1 ++ List.replicate 14 2) (exWorld (sendProg exW false))
     w.logCommits = [(1, 1, 1), (1, 2, 1), (1, 3, 2)] ∧ w.resp 1 = some {} ∧ w.resp 2 = some { tx := 3, log := 3 } := by
   decide
 
@@ -93,7 +90,7 @@ example :
 example :
     let bypass : Prog := .stmt .begin fun _ => forgeLog nestedTx 1 0 0 (sendBody exW) fun r =>
       if r.err = "" then .stmt .commit fun _ => .done r else .stmt .rollback fun _ => .done r
-    let w := run ([1, 1, 1, 1, 1, 1, 2, 2, 2, 2, 2, 1, 1, 1, 1, 1, 1, 1, 1]) (exWorld bypass)
+    let w := run (List.replicate 8 1 ++ List.replicate 6 2) (exWorld bypass)
     w.resp 2 = some { err := "panic" } := by
   decide
 
